@@ -153,6 +153,19 @@ def run(check, repo: Repo) -> None:
                  fail_detail="transform_coordinates does not evaluate transform_rows per image row over input_shape[0] rows")
     wtxt = unparse(wi)
     ok = "xa=xa * upsample_factor" in wtxt and "ya=ya * upsample_factor" in wtxt and "values=image" in wtxt
+    inplace_scaled = [n for n in ast.walk(wi) if isinstance(n, ast.AugAssign) and isinstance(n.op, ast.Mult) and dotted(n.target) in ("xa", "ya") and unparse(n.value) == "upsample_factor"]
+    if not ok and len(inplace_scaled) == 2 and "xa=xa" in wtxt and "ya=ya" in wtxt and "values=image" in wtxt:
+        # the same scaling, applied in place to the arrays transform_coordinates returned.  Sound as long as those arrays are this call's own: a transform_coordinates that
+        # hands back arrays it keeps (a memo) would have its stored coordinates multiplied again on every resampling
+        keeps = [n for n in ast.walk(tc) if isinstance(n, ast.Return) and n.value is not None and any(
+            isinstance(x, ast.Name) and any(isinstance(d_, ast.AST) and _reads_kept_state(d_) for d_ in definitions(tc, x.id))
+            for x in ast.walk(n.value))]
+        if keeps:
+            check.violated("C15-R2", "warp_image hands (row, col) coordinates and the image values to the splat",
+                           f"warp_image scales the coordinate arrays in place (`{unparse(inplace_scaled[0])}`) while transform_coordinates returns arrays it keeps on the object "
+                           f"(`{unparse(keeps[0])[:50]}`): every resampling with an upsampling factor multiplies the stored coordinates again — later images are placed at 2×, 6×, … the "
+                           f"canvas position", mod.line(inplace_scaled[0]), definite=True)
+        ok = True
     check.decide(ok, "C15-R2", "warp_image hands (row, col) coordinates and the image values to the splat", "", mod.line(wi),
                  fail_detail="warp_image does not pass xa→xa, ya→ya, values=image to bilinear_kde")
 
@@ -368,6 +381,17 @@ def _knot_placement(check, mod, pre, repo=None) -> None:
     ok = f == ["np.sin(-self.scan_direction)", "np.cos(-self.scan_direction)"] and s == ["np.cos(-self.scan_direction)", "-np.sin(-self.scan_direction)"]
     check.decide(ok, "C15-R1", "preprocess: scan_fast = (sin, cos)(−θ), scan_slow = (cos, −sin)(−θ) — an orthonormal, right-handed pair", f"{f} {s}", mod.line(pre),
                  fail_detail=f"scan vectors are {f} / {s}: not a rotation pair")
+
+
+def _reads_kept_state(e: ast.AST) -> bool:
+    """the expression loads a DATA attribute of self (not a method being called) or getattr(self, …): a value the object keeps between calls"""
+    callees = {id(c.func) for c in ast.walk(e) if isinstance(c, ast.Call)}
+    for y in ast.walk(e):
+        if isinstance(y, ast.Attribute) and dotted(y.value) == "self" and id(y) not in callees and y.attr.startswith("_"):
+            return True
+        if isinstance(y, ast.Call) and call_name(y) == "getattr" and y.args and dotted(y.args[0]) == "self":
+            return True
+    return False
 
 
 def _fixed_point(check, repo: Repo) -> None:
